@@ -30,7 +30,9 @@ pub fn on_reclaim_decision(sh: &mut Shadow, block: usize, depth: usize, curr_epo
                 "child #{} reclaimed immediately at epoch {} although its youngest stamp was written at epoch {} (true age {} < 3)",
                 o, curr_epoch, stamp, age
             );
-            crate::sched::sim().violation("C12", "reclaimed-too-young", "reclaimed-too-young", &det);
+            // not fatal: the ownership oracles (C01/C02) judge the destruct that follows in this step
+            sh.soft("C12", "reclaimed-too-young", det);
+            return;
         }
         if in_window {
             sh.c12_window_checked += 1;
